@@ -89,7 +89,7 @@ func (s *LockSched) released(site string) {
 }
 
 func (s *LockSched) Install() {
-	simlock.Install(&simlock.Hooks{Acquire: s.acquire, Released: s.released})
+	simlock.Install(&simlock.Hooks{Acquire: s.acquire, Released: s.released, Yield: func(site string) { s.park(site, false) }})
 }
 
 func (s *LockSched) Uninstall() { simlock.Install(nil) }
